@@ -433,9 +433,56 @@ func rawWidthInvariant(p *core.Program, r *core.Report, rule, relPkg string) {
 				},
 				Classify: func(n ast.Node) []paths.Event {
 					var out []paths.Event
+					// the field given its value in a composite literal (return &T{Value: v}) is a store too
+					if _, isAssign := n.(*ast.AssignStmt); !isAssign || true {
+						ast.Inspect(n, func(k ast.Node) bool {
+							if _, isLit := k.(*ast.FuncLit); isLit {
+								return false
+							}
+							cl, ok := k.(*ast.CompositeLit)
+							if !ok {
+								return true
+							}
+							for _, el := range cl.Elts {
+								kv, ok := el.(*ast.KeyValueExpr)
+								if !ok {
+									continue
+								}
+								kid, ok := kv.Key.(*ast.Ident)
+								if !ok || info.ObjectOf(kid) != fx.f {
+									continue
+								}
+								stores++
+								rhs := ast.Unparen(kv.Value)
+								arg := "var:" + norm(rhs)
+								if lit, ok := rhs.(*ast.CompositeLit); ok {
+									arg = fmt.Sprintf("lit:%d", len(lit.Elts))
+								}
+								if c2, ok := rhs.(*ast.CallExpr); ok {
+									if id, ok := c2.Fun.(*ast.Ident); ok && id.Name == "make" && len(c2.Args) >= 2 {
+										if kk, isC := constIntOf(info, c2.Args[1]); isC {
+											arg = fmt.Sprintf("lit:%d", kk)
+										}
+									}
+								}
+								out = append(out, paths.Event{Kind: "STORE", Arg: arg, Pos: kv.Pos()})
+							}
+							return true
+						})
+					}
 					as, ok := n.(*ast.AssignStmt)
 					if !ok || len(as.Lhs) != len(as.Rhs) {
-						return nil
+						return out
+					}
+					// a local (or parameter) given a literal of known length: its width from here on
+					for i, l := range as.Lhs {
+						if lid, ok := ast.Unparen(l).(*ast.Ident); ok {
+							if lit, ok := ast.Unparen(as.Rhs[i]).(*ast.CompositeLit); ok {
+								out = append(out, paths.Event{Kind: "WIDTH", Arg: fmt.Sprintf("%s=%d", lid.Name, len(lit.Elts)), Pos: as.Pos()})
+							} else {
+								out = append(out, paths.Event{Kind: "WIDTH", Arg: lid.Name + "=?", Pos: as.Pos()})
+							}
+						}
 					}
 					for i, l := range as.Lhs {
 						sel, ok := ast.Unparen(l).(*ast.SelectorExpr)
@@ -493,6 +540,9 @@ func rawWidthInvariant(p *core.Program, r *core.Report, rule, relPkg string) {
 					for _, b := range pa[:i] {
 						if b.Kind == "COND" && b.Arg == fmt.Sprintf("len(%s)==%d=true", x, fx.n) {
 							ok = true
+						}
+						if b.Kind == "WIDTH" && strings.HasPrefix(b.Arg, x+"=") {
+							ok = b.Arg == fmt.Sprintf("%s=%d", x, fx.n)
 						}
 					}
 					if !ok {
